@@ -241,3 +241,59 @@ def rule_setz_table(db, chk, cfg, rule="Z.setz-table"):
                       "SetZ pre-assigns %s (expected %s) and calls the callback with %s (expected %s); %d cell(s) differ"
                       % (b[2], b[3], b[4], b[5], len(bad)), f.where, cfg=cfg)
     return n
+
+
+def rule_zcb_rebound(db, chk, cfg, rule="ZCB.rebound"):
+    """ClipperD keeps the user's Z callback (PointD flavour) in zCallbackD_ and derives the engine's zCallback_ (a proxy) from it.
+    The derived member must follow the user's one at every Execute, whatever it was before: CheckCallback is interpreted for the four
+    combinations (user callback set / unset) x (proxy currently set / unset) and must leave the proxy set iff the user callback is
+    set; every ClipperD::Execute overload with a body of its own calls CheckCallback before ExecuteInternal."""
+    from ..evalx import Interp, Unsupported, _Return
+    fs = db.find("ClipperD::CheckCallback", required=False)
+    if not fs:
+        raise AnalysisBroken("ClipperD::CheckCallback not found in a USINGZ configuration")
+    f = fs[0]
+    n = 0
+    for user in (False, True):
+        for proxy in (False, True):
+            box = [None]
+
+            def hook(name, argv, nd):
+                if name == "bind":
+                    return "proxy"
+                if name == "operator=" and nd.get("kind") == "CXXOperatorCallExpr":
+                    a = db.call_args(nd)
+                    try:
+                        v = box[0].ev(a[1])
+                    except Unsupported:
+                        v = "proxy"
+                    box[0].env[canon(a[0]).split("::")[-1]] = v
+                    return v
+                return NotImplemented
+            env = {"zCallbackD_": ("user" if user else None), "zCallback_": ("proxy" if proxy else None)}
+            it = Interp(db, env, call_hook=hook)
+            box[0] = it
+            try:
+                it.run_function(f)
+            except Unsupported as e:
+                raise AnalysisBroken("cannot interpret ClipperD::CheckCallback: %s" % e)
+            got = bool(it.env.get("zCallback_"))
+            n += 1
+            chk.instance(rule, {"user_callback_set": user, "proxy_set_before": proxy, "proxy_set_after": got, "cfg": cfg}, ok=(got == user))
+            if got != user:
+                chk.violation(rule, f.qual, "user=%s/proxy=%s" % (user, proxy), "after CheckCallback the engine's zCallback_ is %s although the user's Z callback is %s "
+                              "(it was %s before the call): %s" % ("set" if got else "unset", "set" if user else "unset", "set" if proxy else "unset",
+                                                                   "the proxy would call an empty std::function" if got else "the user's callback is ignored"),
+                              f.where, cfg=cfg)
+    for g in db.find("ClipperD::Execute"):
+        calls = [canon(x) for x in walk(g.body) if x.get("kind") in ("CXXMemberCallExpr", "CallExpr") and db.callee(x)[0] in ("CheckCallback", "ExecuteInternal", "Execute")]
+        names = [c.split("(")[0] for c in calls]
+        if "ExecuteInternal" not in names:
+            continue                     # forwards to another overload
+        n += 1
+        ok = "CheckCallback" in names and names.index("CheckCallback") < names.index("ExecuteInternal")
+        chk.instance(rule, {"function": g.qual, "sig": g.sig[:60], "calls": names, "cfg": cfg}, ok=ok)
+        if not ok:
+            chk.violation(rule, g.qual, g.sig[:40], "this ClipperD::Execute overload does not call CheckCallback before ExecuteInternal: the engine runs with a "
+                          "proxy callback that does not follow the user's SetZCallback", g.where, cfg=cfg)
+    return n
